@@ -106,6 +106,8 @@ pub enum FeOp {
 	Call,
 	Batch(usize),
 	Subscribe,
+	/// subscribe and drop the stream as soon as it exists (the client then sends an unsubscribe)
+	SubscribeDrop,
 	Notif,
 	/// a call that is only started once `after` environment events have fired
 	LateCall,
@@ -276,9 +278,15 @@ pub fn setup(cfg: &CliScenarioCfg) -> CliState {
 					let r: Result<BatchResponse<Value>, Error> = client.batch_request(b).await;
 					r.map(batch_summary).map_err(|e| err_str(&e))
 				}
-				FeOp::Subscribe => {
+				FeOp::Subscribe | FeOp::SubscribeDrop => {
 					let r: Result<Subscription<Value>, Error> = client.subscribe("sub", rpc_params![i as u64], "unsub").await;
 					match r {
+						Ok(sub) if op == FeOp::SubscribeDrop => {
+							let kind = format!("{:?}", sub.kind());
+							sched::log(format!("fe:{i}:subscribed-and-dropping:{kind}"));
+							drop(sub);
+							Ok(kind)
+						}
 						Ok(mut sub) => {
 							let kind = format!("{:?}", sub.kind());
 							log.lock().unwrap().status[i] = OpStatus::Ok(kind.clone());
@@ -388,7 +396,7 @@ pub fn wire_index_of(sent: &[String], op: &FeOp, i: usize) -> Option<usize> {
 		let Ok(v) = serde_json::from_str::<Value>(m) else { return false };
 		match op {
 			FeOp::Batch(_) => v.as_array().map_or(false, |a| a.first().and_then(|e| e.get("method")).and_then(|x| x.as_str()) == Some(&format!("bm{i}"))),
-			FeOp::Subscribe => v.get("method").and_then(|x| x.as_str()) == Some("sub") && v.get("params") == Some(&json!([i])),
+			FeOp::Subscribe | FeOp::SubscribeDrop => v.get("method").and_then(|x| x.as_str()) == Some("sub") && v.get("params") == Some(&json!([i])),
 			FeOp::Notif => v.get("method").and_then(|x| x.as_str()) == Some("note") && v.get("params") == Some(&json!([i])),
 			FeOp::Call | FeOp::LateCall => v.get("method").and_then(|x| x.as_str()) == Some("m") && v.get("params") == Some(&json!([i])),
 		}
